@@ -1,1 +1,697 @@
-fn main() { eprintln!("not built yet"); std::process::exit(2); }
+//! C07 harness: recorder and label-program replayer for the real `dora_asm::x64::AssemblerX64`.
+//!
+//!   vx64 methods                          names of the instruction methods the recorder drives (one per line)
+//!   vx64 record <out.ndjson> <seed> <quick|thorough>
+//!                                         calls every instruction method over registers x addressing shapes x boundary
+//!                                         displacements / immediates / condition codes; one NDJSON record per call:
+//!                                         {"m":method,"r":[regs in parameter order],"a":{..},"imm":[8 LE bytes],"cc":name,
+//!                                          "u8":n,"rel":n,"lbl":{"before":0|1,"pad":n},"bytes":[..]} or ...,"refused":true
+//!   vx64 labels <programs.ndjson> <out.ndjson>
+//!                                         replays label programs {"id":n,"nl":labels,"items":[{"op":..},..]} and writes
+//!                                         {"id":n,"bytes":[..]} or {"id":n,"refused":true}
+//!
+//! A panic (assert) of the code under test is data ("refused"), never a harness failure.
+use dora_asm::Label;
+use dora_asm::x64::*;
+use std::io::{BufRead, BufWriter, Write};
+
+#[derive(Clone, Copy, Debug)]
+enum Addr {
+    None,
+    Offset { base: u8, disp: i32 },
+    Array { base: u8, index: u8, scale: u8, disp: i32 },
+    Index { index: u8, scale: u8, disp: i32 },
+    Rip { disp: i32 },
+}
+
+#[derive(Clone, Copy, Debug)]
+struct Ops {
+    r: [u8; 3],
+    a: Addr,
+    imm: i64,
+    cc: usize,
+    u8v: u8,
+    rel: i32,
+    before: bool,
+    pad: u32,
+}
+
+impl Ops {
+    fn new() -> Ops {
+        Ops { r: [0; 3], a: Addr::None, imm: 0, cc: 0, u8v: 0, rel: 0, before: false, pad: 0 }
+    }
+}
+
+fn g(v: u8) -> Register {
+    Register::new(v)
+}
+fn x(v: u8) -> XmmRegister {
+    XmmRegister::new(v)
+}
+fn sf(i: u8) -> ScaleFactor {
+    match i {
+        0 => ScaleFactor::One,
+        1 => ScaleFactor::Two,
+        2 => ScaleFactor::Four,
+        _ => ScaleFactor::Eight,
+    }
+}
+fn ad(a: Addr) -> Address {
+    match a {
+        Addr::Offset { base, disp } => Address::offset(g(base), disp),
+        Addr::Array { base, index, scale, disp } => Address::array(g(base), g(index), sf(scale), disp),
+        Addr::Index { index, scale, disp } => Address::index(g(index), sf(scale), disp),
+        Addr::Rip { disp } => Address::rip(disp),
+        Addr::None => unreachable!(),
+    }
+}
+
+const CONDS: [(&str, Condition); 28] = [
+    ("Overflow", Condition::Overflow),
+    ("NoOverflow", Condition::NoOverflow),
+    ("Below", Condition::Below),
+    ("NeitherAboveNorEqual", Condition::NeitherAboveNorEqual),
+    ("NotBelow", Condition::NotBelow),
+    ("AboveOrEqual", Condition::AboveOrEqual),
+    ("Equal", Condition::Equal),
+    ("Zero", Condition::Zero),
+    ("NotEqual", Condition::NotEqual),
+    ("NotZero", Condition::NotZero),
+    ("BelowOrEqual", Condition::BelowOrEqual),
+    ("NotAbove", Condition::NotAbove),
+    ("NeitherBelowNorEqual", Condition::NeitherBelowNorEqual),
+    ("Above", Condition::Above),
+    ("Sign", Condition::Sign),
+    ("NoSign", Condition::NoSign),
+    ("Parity", Condition::Parity),
+    ("ParityEven", Condition::ParityEven),
+    ("NoParity", Condition::NoParity),
+    ("ParityOdd", Condition::ParityOdd),
+    ("Less", Condition::Less),
+    ("NeitherGreaterNorEqual", Condition::NeitherGreaterNorEqual),
+    ("NotLess", Condition::NotLess),
+    ("GreaterOrEqual", Condition::GreaterOrEqual),
+    ("LessOrEqual", Condition::LessOrEqual),
+    ("NotGreater", Condition::NotGreater),
+    ("NeitherLessNorEqual", Condition::NeitherLessNorEqual),
+    ("Greater", Condition::Greater),
+];
+
+fn cond(i: usize) -> Condition {
+    CONDS[i].1
+}
+fn cond_by_name(n: &str) -> Option<Condition> {
+    CONDS.iter().find(|c| c.0 == n).map(|c| c.1)
+}
+
+/// operand signature classes (parameter lists of the public methods)
+#[derive(Clone, Copy, PartialEq, Eq, Debug)]
+enum Sig {
+    None,   // ()
+    R,      // (Register)
+    RR,     // (Register, Register) - also Xmm/Register mixes: every register operand is a number 0..15
+    RRR,    // three register operands
+    RRU8,   // (Xmm, Xmm, u8)
+    RRRU8,  // (Xmm, Xmm, Xmm, u8)
+    CR,     // (Condition, Register)
+    CRR,    // (Condition, Register, Register)
+    RI,     // (Register, Immediate)
+    RA,     // (reg, Address)  (either order in the method; r[0] is the register)
+    RRA,    // (Xmm, Xmm, Address)
+    AI,     // (Address, Immediate)
+    L,      // (Label)
+    CL,     // (Condition, Label)
+    RL,     // (reg, Label)
+    RRL,    // (Xmm, Xmm, Label)
+    Rel,    // (i32)
+}
+
+type F = fn(&mut AssemblerX64, &Ops);
+struct M {
+    name: &'static str,
+    sig: Sig,
+    f: F,
+}
+
+fn with_label(a: &mut AssemblerX64, o: &Ops, f: impl FnOnce(&mut AssemblerX64, Label)) {
+    let l = a.create_label();
+    if o.before {
+        a.bind_label(l);
+        for _ in 0..o.pad {
+            a.nop();
+        }
+        f(a, l);
+    } else {
+        f(a, l);
+        for _ in 0..o.pad {
+            a.nop();
+        }
+        a.bind_label(l);
+    }
+}
+
+macro_rules! reg_gg { ($v:ident; $sig:expr; $($n:ident)*) => { $( $v.push(M { name: stringify!($n), sig: $sig, f: |a, o| a.$n(g(o.r[0]), g(o.r[1])) }); )* } }
+macro_rules! reg_xx { ($v:ident; $($n:ident)*) => { $( $v.push(M { name: stringify!($n), sig: Sig::RR, f: |a, o| a.$n(x(o.r[0]), x(o.r[1])) }); )* } }
+macro_rules! reg_gx { ($v:ident; $($n:ident)*) => { $( $v.push(M { name: stringify!($n), sig: Sig::RR, f: |a, o| a.$n(g(o.r[0]), x(o.r[1])) }); )* } }
+macro_rules! reg_xg { ($v:ident; $($n:ident)*) => { $( $v.push(M { name: stringify!($n), sig: Sig::RR, f: |a, o| a.$n(x(o.r[0]), g(o.r[1])) }); )* } }
+macro_rules! reg_g { ($v:ident; $($n:ident)*) => { $( $v.push(M { name: stringify!($n), sig: Sig::R, f: |a, o| a.$n(g(o.r[0])) }); )* } }
+macro_rules! reg_xxx { ($v:ident; $($n:ident)*) => { $( $v.push(M { name: stringify!($n), sig: Sig::RRR, f: |a, o| a.$n(x(o.r[0]), x(o.r[1]), x(o.r[2])) }); )* } }
+macro_rules! reg_xxg { ($v:ident; $($n:ident)*) => { $( $v.push(M { name: stringify!($n), sig: Sig::RRR, f: |a, o| a.$n(x(o.r[0]), x(o.r[1]), g(o.r[2])) }); )* } }
+macro_rules! reg_none { ($v:ident; $($n:ident)*) => { $( $v.push(M { name: stringify!($n), sig: Sig::None, f: |a, _o| a.$n() }); )* } }
+macro_rules! reg_gi { ($v:ident; $($n:ident)*) => { $( $v.push(M { name: stringify!($n), sig: Sig::RI, f: |a, o| a.$n(g(o.r[0]), Immediate(o.imm)) }); )* } }
+macro_rules! reg_ga { ($v:ident; $($n:ident)*) => { $( $v.push(M { name: stringify!($n), sig: Sig::RA, f: |a, o| a.$n(g(o.r[0]), ad(o.a)) }); )* } }
+macro_rules! reg_ag { ($v:ident; $($n:ident)*) => { $( $v.push(M { name: stringify!($n), sig: Sig::RA, f: |a, o| a.$n(ad(o.a), g(o.r[0])) }); )* } }
+macro_rules! reg_xa { ($v:ident; $($n:ident)*) => { $( $v.push(M { name: stringify!($n), sig: Sig::RA, f: |a, o| a.$n(x(o.r[0]), ad(o.a)) }); )* } }
+macro_rules! reg_ax { ($v:ident; $($n:ident)*) => { $( $v.push(M { name: stringify!($n), sig: Sig::RA, f: |a, o| a.$n(ad(o.a), x(o.r[0])) }); )* } }
+macro_rules! reg_xxa { ($v:ident; $($n:ident)*) => { $( $v.push(M { name: stringify!($n), sig: Sig::RRA, f: |a, o| a.$n(x(o.r[0]), x(o.r[1]), ad(o.a)) }); )* } }
+macro_rules! reg_ai { ($v:ident; $($n:ident)*) => { $( $v.push(M { name: stringify!($n), sig: Sig::AI, f: |a, o| a.$n(ad(o.a), Immediate(o.imm)) }); )* } }
+macro_rules! reg_xl { ($v:ident; $($n:ident)*) => { $( $v.push(M { name: stringify!($n), sig: Sig::RL, f: |a, o| with_label(a, o, |a, l| a.$n(x(o.r[0]), l)) }); )* } }
+macro_rules! reg_xxl { ($v:ident; $($n:ident)*) => { $( $v.push(M { name: stringify!($n), sig: Sig::RRL, f: |a, o| with_label(a, o, |a, l| a.$n(x(o.r[0]), x(o.r[1]), l)) }); )* } }
+
+fn table() -> Vec<M> {
+    let mut v: Vec<M> = Vec::new();
+    reg_none!(v; cdq cqo int3 mfence nop retq);
+    reg_g!(v; call_r idivl_r idivq_r jmp_r negl negq notl notq popq_r pushq_r roll_r rolq_r rorl_r rorq_r
+              sarl_r sarq_r shll_r shlq_r shrl_r shrq_r);
+    reg_gg!(v; Sig::RR; addl_rr addq_rr andl_rr andq_rr cmpb_rr cmpl_rr cmpq_rr imull_rr imulq_rr lzcntl_rr lzcntq_rr
+              movl_rr movq_rr movsxbl_rr movsxbq_rr movsxlq_rr movzxb_rr orl_rr orq_rr popcntl_rr popcntq_rr
+              subl_rr subq_rr testb_rr testl_rr testq_rr tzcntl_rr tzcntq_rr xorl_rr xorq_rr);
+    reg_gx!(v; cvttsd2sid_rr cvttsd2siq_rr cvttss2sid_rr cvttss2siq_rr movd_rx movq_rx
+              vcvttsd2sid_rr vcvttsd2siq_rr vcvttss2sid_rr vcvttss2siq_rr vmovd_rx vmovq_rx);
+    reg_xg!(v; cvtsi2sdd_rr cvtsi2sdq_rr cvtsi2ssd_rr cvtsi2ssq_rr movd_xr movq_xr vmovd_xr vmovq_xr);
+    reg_xx!(v; addsd_rr addss_rr cvtsd2ss_rr cvtss2sd_rr divsd_rr divss_rr movsd_rr movss_rr mulsd_rr mulss_rr pxor_rr
+              sqrtsd_rr sqrtss_rr subsd_rr subss_rr ucomisd_rr ucomiss_rr vmovapd_rr vmovaps_rr vucomisd_rr
+              vucomiss_rr xorps_rr);
+    reg_xxx!(v; vaddsd_rr vaddss_rr vcvtsd2ss_rr vcvtss2sd_rr vdivsd_rr vdivss_rr vmovsd_rr vmovss_rr vmulsd_rr
+              vmulss_rr vsqrtsd_rr vsqrtss_rr vsubsd_rr vsubss_rr vxorps_rr);
+    reg_xxg!(v; vcvtsi2sdd_rr vcvtsi2sdq_rr vcvtsi2ssd_rr vcvtsi2ssq_rr);
+    v.push(M { name: "roundsd_ri", sig: Sig::RRU8, f: |a, o| a.roundsd_ri(x(o.r[0]), x(o.r[1]), o.u8v) });
+    v.push(M { name: "roundss_ri", sig: Sig::RRU8, f: |a, o| a.roundss_ri(x(o.r[0]), x(o.r[1]), o.u8v) });
+    v.push(M { name: "vroundsd_ri", sig: Sig::RRRU8, f: |a, o| a.vroundsd_ri(x(o.r[0]), x(o.r[1]), x(o.r[2]), o.u8v) });
+    v.push(M { name: "vroundss_ri", sig: Sig::RRRU8, f: |a, o| a.vroundss_ri(x(o.r[0]), x(o.r[1]), x(o.r[2]), o.u8v) });
+    v.push(M { name: "setcc_r", sig: Sig::CR, f: |a, o| a.setcc_r(cond(o.cc), g(o.r[0])) });
+    v.push(M { name: "cmovl", sig: Sig::CRR, f: |a, o| a.cmovl(cond(o.cc), g(o.r[0]), g(o.r[1])) });
+    v.push(M { name: "cmovq", sig: Sig::CRR, f: |a, o| a.cmovq(cond(o.cc), g(o.r[0]), g(o.r[1])) });
+    reg_gi!(v; addl_ri addq_ri andq_ri cmpl_ri cmpq_ri movl_ri movq_ri sarl_ri sarq_ri shll_ri shlq_ri shrl_ri shrq_ri
+              subq_ri testl_ri xorl_ri);
+    reg_ga!(v; lea movb_ra movl_ra movq_ra movsxbl_ra movsxbq_ra movzxb_ra);
+    reg_ag!(v; cmpb_ar cmpl_ar cmpq_ar cmpxchgl_ar cmpxchgq_ar lock_cmpxchgl_ar lock_cmpxchgq_ar lock_xaddl_ar
+              lock_xaddq_ar movb_ar movl_ar movq_ar testl_ar testq_ar xaddl_ar xaddq_ar xchgb_ar xchgl_ar xchgq_ar);
+    reg_xa!(v; andps_ra movsd_ra movss_ra vmovsd_ra vmovss_ra xorpd_ra xorps_ra);
+    reg_ax!(v; movaps_ar movsd_ar movss_ar movups_ar vmovsd_ar vmovss_ar);
+    reg_xxa!(v; vandpd_ra vandps_ra vxorpd_ra vxorps_ra);
+    reg_ai!(v; cmpb_ai cmpl_ai cmpq_ai movb_ai movl_ai movq_ai testb_ai testl_ai testq_ai);
+    v.push(M { name: "jmp", sig: Sig::L, f: |a, o| with_label(a, o, |a, l| a.jmp(l)) });
+    v.push(M { name: "jmp_near", sig: Sig::L, f: |a, o| with_label(a, o, |a, l| a.jmp_near(l)) });
+    v.push(M { name: "jcc", sig: Sig::CL, f: |a, o| with_label(a, o, |a, l| a.jcc(cond(o.cc), l)) });
+    v.push(M { name: "jcc_near", sig: Sig::CL, f: |a, o| with_label(a, o, |a, l| a.jcc_near(cond(o.cc), l)) });
+    v.push(M { name: "movq_rl", sig: Sig::RL, f: |a, o| with_label(a, o, |a, l| a.movq_rl(g(o.r[0]), l)) });
+    reg_xl!(v; andps_rl movsd_rl movss_rl vmovsd_rl vmovss_rl xorpd_rl xorps_rl);
+    reg_xxl!(v; vandpd_rl vandps_rl vxorpd_rl vxorps_rl);
+    v.push(M { name: "call_rel32", sig: Sig::Rel, f: |a, o| a.call_rel32(o.rel) });
+    v
+}
+
+// ---------------------------------------------------------------------------------------------
+// deterministic pseudo random numbers (splitmix64)
+
+struct Rng(u64);
+impl Rng {
+    fn new(seed: u64, salt: &str) -> Rng {
+        let mut h: u64 = 0xcbf29ce484222325 ^ seed.wrapping_mul(0x9E3779B97F4A7C15);
+        for b in salt.bytes() {
+            h = (h ^ b as u64).wrapping_mul(0x100000001b3);
+        }
+        Rng(h)
+    }
+    fn next(&mut self) -> u64 {
+        self.0 = self.0.wrapping_add(0x9E3779B97F4A7C15);
+        let mut z = self.0;
+        z = (z ^ (z >> 30)).wrapping_mul(0xBF58476D1CE4E5B9);
+        z = (z ^ (z >> 27)).wrapping_mul(0x94D049BB133111EB);
+        z ^ (z >> 31)
+    }
+    fn below(&mut self, n: u64) -> u64 {
+        self.next() % n
+    }
+    fn pick<T: Copy>(&mut self, xs: &[T]) -> T {
+        xs[self.below(xs.len() as u64) as usize]
+    }
+}
+
+const DISPS: [i32; 13] = [0, 1, -1, 127, 128, -128, -129, i32::MAX, i32::MIN, 8, 256, -4096, 0x12345678];
+const IMMS: [i64; 26] = [
+    0, 1, -1, 2, 31, 32, 63, 64, 127, 128, -128, -129, 255, 256, 32767, 65535, 0x12345678,
+    0x7fff_ffff, 0x8000_0000, -0x8000_0000, -0x8000_0001, 0xffff_ffff, 0x1_0000_0000,
+    i64::MAX, i64::MIN, 0x1234_5678_9abc_def0,
+];
+const PADS_SMALL: [u32; 4] = [0, 1, 5, 16];
+const PADS_JUMP: [u32; 12] = [0, 1, 5, 121, 122, 124, 125, 126, 127, 128, 129, 200];
+
+fn rand_disp(r: &mut Rng) -> i32 {
+    match r.below(4) {
+        0 => r.pick(&DISPS),
+        1 => (r.below(512) as i32) - 256,
+        2 => r.next() as i32,
+        _ => r.pick(&[127, 128, -128, -129, 0]),
+    }
+}
+
+fn rand_imm(r: &mut Rng) -> i64 {
+    match r.below(4) {
+        0 | 1 => r.pick(&IMMS),
+        2 => (r.below(1024) as i64) - 512,
+        _ => (r.next() as i32) as i64,
+    }
+}
+
+fn rand_addr(r: &mut Rng) -> Addr {
+    match r.below(10) {
+        0..=3 => Addr::Offset { base: r.below(16) as u8, disp: rand_disp(r) },
+        4..=7 => Addr::Array { base: r.below(16) as u8, index: r.below(16) as u8, scale: r.below(4) as u8, disp: rand_disp(r) },
+        8 => Addr::Index { index: r.below(16) as u8, scale: r.below(4) as u8, disp: rand_disp(r) },
+        _ => Addr::Rip { disp: rand_disp(r) },
+    }
+}
+
+/// structured core of addressing shapes: every base (incl. rsp/r12, rbp/r13) x every boundary displacement,
+/// every index register and scale, the no-base and RIP-relative forms
+fn core_addrs(r: &mut Rng) -> Vec<Addr> {
+    let mut v = Vec::new();
+    for base in 0..16u8 {
+        for &disp in &DISPS[..9] {
+            v.push(Addr::Offset { base, disp });
+        }
+    }
+    for index in 0..16u8 {
+        v.push(Addr::Array { base: r.below(16) as u8, index, scale: r.below(4) as u8, disp: r.pick(&DISPS[..9]) });
+        v.push(Addr::Index { index, scale: r.below(4) as u8, disp: r.pick(&DISPS[..9]) });
+    }
+    for base in 0..16u8 {
+        for &disp in &[0, 127, 128, -128, -129] {
+            let mut index = r.below(16) as u8;
+            if index == 4 || index == 12 {
+                index = 1;
+            }
+            v.push(Addr::Array { base, index, scale: r.below(4) as u8, disp });
+        }
+    }
+    for scale in 0..4u8 {
+        v.push(Addr::Array { base: 3, index: 9, scale, disp: 0 });
+        v.push(Addr::Index { index: 9, scale, disp: 64 });
+    }
+    for &disp in &DISPS[..9] {
+        v.push(Addr::Rip { disp });
+        v.push(Addr::Index { index: 1, scale: 2, disp });
+    }
+    v
+}
+
+// ---------------------------------------------------------------------------------------------
+
+fn write_rec(out: &mut impl Write, m: &M, o: &Ops, bytes: Option<Vec<u8>>) {
+    let mut s = String::with_capacity(160);
+    s.push_str("{\"m\":\"");
+    s.push_str(m.name);
+    s.push('"');
+    let nr = match m.sig {
+        Sig::R | Sig::CR | Sig::RI | Sig::RA | Sig::RL => 1,
+        Sig::RR | Sig::RRU8 | Sig::CRR | Sig::RRA | Sig::RRL => 2,
+        Sig::RRR | Sig::RRRU8 => 3,
+        _ => 0,
+    };
+    s.push_str(",\"r\":[");
+    for i in 0..nr {
+        if i > 0 {
+            s.push(',');
+        }
+        s.push_str(&o.r[i].to_string());
+    }
+    s.push(']');
+    match o.a {
+        Addr::None => {}
+        Addr::Offset { base, disp } => s.push_str(&format!(",\"a\":{{\"k\":\"offset\",\"base\":{},\"index\":0,\"scale\":0,\"disp\":{}}}", base, disp)),
+        Addr::Array { base, index, scale, disp } => s.push_str(&format!(",\"a\":{{\"k\":\"array\",\"base\":{},\"index\":{},\"scale\":{},\"disp\":{}}}", base, index, scale, disp)),
+        Addr::Index { index, scale, disp } => s.push_str(&format!(",\"a\":{{\"k\":\"index\",\"base\":0,\"index\":{},\"scale\":{},\"disp\":{}}}", index, scale, disp)),
+        Addr::Rip { disp } => s.push_str(&format!(",\"a\":{{\"k\":\"rip\",\"base\":0,\"index\":0,\"scale\":0,\"disp\":{}}}", disp)),
+    }
+    if matches!(m.sig, Sig::RI | Sig::AI) {
+        let b = (o.imm as u64).to_le_bytes();
+        s.push_str(&format!(",\"imm\":[{},{},{},{},{},{},{},{}],\"immv\":\"{}\"", b[0], b[1], b[2], b[3], b[4], b[5], b[6], b[7], o.imm));
+    }
+    if matches!(m.sig, Sig::CR | Sig::CRR | Sig::CL) {
+        s.push_str(&format!(",\"cc\":\"{}\"", CONDS[o.cc].0));
+    }
+    if matches!(m.sig, Sig::RRU8 | Sig::RRRU8) {
+        s.push_str(&format!(",\"u8\":{}", o.u8v));
+    }
+    if matches!(m.sig, Sig::Rel) {
+        s.push_str(&format!(",\"rel\":{}", o.rel));
+    }
+    if matches!(m.sig, Sig::L | Sig::CL | Sig::RL | Sig::RRL) {
+        s.push_str(&format!(",\"lbl\":{{\"before\":{},\"pad\":{}}}", if o.before { 1 } else { 0 }, o.pad));
+    }
+    match bytes {
+        Some(b) => {
+            s.push_str(",\"bytes\":[");
+            for (i, x) in b.iter().enumerate() {
+                if i > 0 {
+                    s.push(',');
+                }
+                s.push_str(&x.to_string());
+            }
+            s.push_str("]}");
+        }
+        None => s.push_str(",\"bytes\":[],\"refused\":true}"),
+    }
+    writeln!(out, "{}", s).unwrap();
+}
+
+fn run_one(m: &M, o: Ops) -> Option<Vec<u8>> {
+    let avx = m.name.starts_with('v');
+    let f = m.f;
+    std::panic::catch_unwind(move || {
+        let mut a = AssemblerX64::new(avx);
+        f(&mut a, &o);
+        a.finalize(1).code()
+    })
+    .ok()
+}
+
+struct Budget {
+    three_full: bool, // three-register forms: full 16^3 product
+    rand3: u64,
+    rand_addr: u64,
+    rand_ai: u64,
+    rand_ri: u64,
+    crr_full: bool,
+}
+
+fn record(path: &str, seed: u64, thorough: bool) {
+    let mut out = BufWriter::with_capacity(1 << 20, std::fs::File::create(path).unwrap());
+    let b = if thorough {
+        Budget { three_full: true, rand3: 0, rand_addr: 6000, rand_ai: 6000, rand_ri: 600, crr_full: true }
+    } else {
+        Budget { three_full: false, rand3: 250, rand_addr: 150, rand_ai: 250, rand_ri: 60, crr_full: false }
+    };
+    let mut n: u64 = 0;
+    let mut refused: u64 = 0;
+    let t = table();
+    for m in &t {
+        let mut r = Rng::new(seed, m.name);
+        let mut cases: Vec<Ops> = Vec::new();
+        let o0 = Ops::new();
+        match m.sig {
+            Sig::None => cases.push(o0),
+            Sig::R => {
+                for a in 0..16 {
+                    cases.push(Ops { r: [a, 0, 0], ..o0 });
+                }
+            }
+            Sig::RR => {
+                for a in 0..16 {
+                    for c in 0..16 {
+                        cases.push(Ops { r: [a, c, 0], ..o0 });
+                    }
+                }
+            }
+            Sig::RRR | Sig::RRRU8 | Sig::RRU8 => {
+                let three = m.sig != Sig::RRU8;
+                let modes: Vec<u8> = if m.sig == Sig::RRR { vec![0] } else { vec![0, 1, 2, 3, 4, 8, 12, 255] };
+                if three && b.three_full && m.sig == Sig::RRR {
+                    for a in 0..16 {
+                        for c in 0..16 {
+                            for d in 0..16 {
+                                cases.push(Ops { r: [a, c, d], ..o0 });
+                            }
+                        }
+                    }
+                } else {
+                    // core: each operand sweeps 0..16 against low and high partners
+                    let k = if three { 3 } else { 2 };
+                    for pos in 0..k {
+                        for v in 0..16u8 {
+                            for &(p, q) in &[(1u8, 2u8), (9, 10), (3, 12), (13, 5)] {
+                                let mut rr = [p, q, if three { (p + q) % 16 } else { 0 }];
+                                rr[pos] = v;
+                                cases.push(Ops { r: rr, u8v: r.pick(&modes), ..o0 });
+                            }
+                        }
+                    }
+                    if !three {
+                        for a in 0..16 {
+                            for c in 0..16 {
+                                cases.push(Ops { r: [a, c, 0], u8v: r.pick(&modes), ..o0 });
+                            }
+                        }
+                    }
+                    for &u in &modes {
+                        cases.push(Ops { r: [r.below(16) as u8, r.below(16) as u8, if three { r.below(16) as u8 } else { 0 }], u8v: u, ..o0 });
+                    }
+                    let extra = if thorough { 3000 } else { b.rand3 };
+                    for _ in 0..extra {
+                        cases.push(Ops {
+                            r: [r.below(16) as u8, r.below(16) as u8, if three { r.below(16) as u8 } else { 0 }],
+                            u8v: if m.sig == Sig::RRR { 0 } else if r.below(2) == 0 { r.pick(&modes) } else { r.below(256) as u8 },
+                            ..o0
+                        });
+                    }
+                }
+            }
+            Sig::CR => {
+                for cc in 0..CONDS.len() {
+                    for a in 0..16 {
+                        cases.push(Ops { r: [a, 0, 0], cc, ..o0 });
+                    }
+                }
+            }
+            Sig::CRR => {
+                if b.crr_full {
+                    for cc in 0..CONDS.len() {
+                        for a in 0..16 {
+                            for c in 0..16 {
+                                cases.push(Ops { r: [a, c, 0], cc, ..o0 });
+                            }
+                        }
+                    }
+                } else {
+                    for a in 0..16 {
+                        for c in 0..16 {
+                            cases.push(Ops { r: [a, c, 0], cc: r.below(CONDS.len() as u64) as usize, ..o0 });
+                        }
+                    }
+                    for cc in 0..CONDS.len() {
+                        for _ in 0..6 {
+                            cases.push(Ops { r: [r.below(16) as u8, r.below(16) as u8, 0], cc, ..o0 });
+                        }
+                    }
+                }
+            }
+            Sig::RI => {
+                for a in 0..16 {
+                    for &imm in &IMMS {
+                        cases.push(Ops { r: [a, 0, 0], imm, ..o0 });
+                    }
+                }
+                for _ in 0..b.rand_ri {
+                    cases.push(Ops { r: [r.below(16) as u8, 0, 0], imm: rand_imm(&mut r), ..o0 });
+                }
+            }
+            Sig::RA | Sig::RRA => {
+                let two = m.sig == Sig::RRA;
+                let core = core_addrs(&mut r);
+                // every register value of the register operand(s) against a rotating slice of the core shapes, and
+                // every core shape against a low and a high register
+                for (i, a) in core.iter().enumerate() {
+                    let lo = (i % 8) as u8;
+                    let hi = 8 + ((i / 8) % 8) as u8;
+                    if thorough || i % 2 == (seed % 2) as usize {
+                        cases.push(Ops { r: [lo, hi, 0], a: *a, ..o0 });
+                    }
+                    if thorough || i % 2 != (seed % 2) as usize {
+                        cases.push(Ops { r: [hi, lo, 0], a: *a, ..o0 });
+                    }
+                }
+                for v in 0..16u8 {
+                    for _ in 0..(if thorough { 12 } else { 3 }) {
+                        cases.push(Ops { r: [v, r.below(16) as u8, 0], a: r.pick(&core), ..o0 });
+                        if two {
+                            cases.push(Ops { r: [r.below(16) as u8, v, 0], a: r.pick(&core), ..o0 });
+                        }
+                    }
+                }
+                for _ in 0..b.rand_addr {
+                    cases.push(Ops { r: [r.below(16) as u8, r.below(16) as u8, 0], a: rand_addr(&mut r), ..o0 });
+                }
+                if !two {
+                    for c in cases.iter_mut() {
+                        c.r[1] = 0;
+                    }
+                }
+            }
+            Sig::AI => {
+                let core = core_addrs(&mut r);
+                for (i, a) in core.iter().enumerate() {
+                    if thorough || i % 2 == (seed % 2) as usize {
+                        cases.push(Ops { a: *a, imm: IMMS[(i + seed as usize) % 18], ..o0 });
+                    }
+                }
+                for &imm in &IMMS {
+                    for _ in 0..(if thorough { 8 } else { 2 }) {
+                        cases.push(Ops { a: r.pick(&core), imm, ..o0 });
+                    }
+                }
+                for _ in 0..b.rand_ai {
+                    cases.push(Ops { a: rand_addr(&mut r), imm: rand_imm(&mut r), ..o0 });
+                }
+            }
+            Sig::L | Sig::CL => {
+                let ccs: Vec<usize> = if m.sig == Sig::CL { (0..CONDS.len()).collect() } else { vec![0] };
+                for (k, &cc) in ccs.iter().enumerate() {
+                    for before in [false, true] {
+                        for (j, &pad) in PADS_JUMP.iter().enumerate() {
+                            // all paddings for a rotating third of the condition codes, the boundary ones for all
+                            if m.sig == Sig::L || thorough || (k + j + seed as usize) % 3 == 0 || (124..=129).contains(&pad) {
+                                cases.push(Ops { cc, before, pad, ..o0 });
+                            }
+                        }
+                    }
+                }
+            }
+            Sig::RL | Sig::RRL => {
+                for a in 0..16u8 {
+                    for c in 0..(if m.sig == Sig::RRL { 16u8 } else { 1 }) {
+                        if m.sig == Sig::RRL && !thorough && (a as u64 + c as u64 + seed) % 4 != 0 && a != c {
+                            continue;
+                        }
+                        for before in [false, true] {
+                            cases.push(Ops { r: [a, c, 0], before, pad: r.pick(&PADS_SMALL), ..o0 });
+                        }
+                    }
+                }
+                for &pad in &[0u32, 1, 127, 128, 300] {
+                    for before in [false, true] {
+                        cases.push(Ops { r: [r.below(16) as u8, r.below(16) as u8, 0], before, pad, ..o0 });
+                    }
+                }
+            }
+            Sig::Rel => {
+                for &d in &DISPS {
+                    cases.push(Ops { rel: d, ..o0 });
+                }
+                for _ in 0..20 {
+                    cases.push(Ops { rel: r.next() as i32, ..o0 });
+                }
+            }
+        }
+        for o in cases {
+            let bytes = run_one(m, o);
+            if bytes.is_none() {
+                refused += 1;
+            }
+            write_rec(&mut out, m, &o, bytes);
+            n += 1;
+        }
+    }
+    out.flush().unwrap();
+    println!("{{\"kind\":\"summary\",\"records\":{},\"refused\":{},\"methods\":{}}}", n, refused, t.len());
+}
+
+// ---------------------------------------------------------------------------------------------
+// label programs
+
+fn replay_program(p: &serde_json::Value) -> Option<Vec<u8>> {
+    let nl = p["nl"].as_u64().unwrap_or(0) as usize;
+    let items: Vec<serde_json::Value> = p["items"].as_array().cloned().unwrap_or_default();
+    std::panic::catch_unwind(move || {
+        let mut a = AssemblerX64::new(false);
+        let labels: Vec<Label> = (0..nl).map(|_| a.create_label()).collect();
+        for it in &items {
+            let op = it["op"].as_str().unwrap();
+            let l = || labels[it["l"].as_u64().unwrap() as usize - 1];
+            let cc = || cond_by_name(it["cc"].as_str().unwrap()).unwrap();
+            match op {
+                "pad" => {
+                    for _ in 0..it["n"].as_u64().unwrap() {
+                        a.nop();
+                    }
+                }
+                "bind" => a.bind_label(l()),
+                "ins" => match it["m"].as_str().unwrap() {
+                    "jmp" => a.jmp(l()),
+                    "jmp_near" => a.jmp_near(l()),
+                    "jcc" => a.jcc(cc(), l()),
+                    "jcc_near" => a.jcc_near(cc(), l()),
+                    "movq_rl" => a.movq_rl(g(it["r"][0].as_u64().unwrap() as u8), l()),
+                    "movsd_rl" => a.movsd_rl(x(it["r"][0].as_u64().unwrap() as u8), l()),
+                    _ => panic!("unknown item"),
+                },
+                _ => panic!("unknown item"),
+            }
+        }
+        a.finalize(1).code()
+    })
+    .ok()
+}
+
+fn labels(inp: &str, outp: &str) {
+    let f = std::io::BufReader::new(std::fs::File::open(inp).unwrap());
+    let mut out = BufWriter::with_capacity(1 << 20, std::fs::File::create(outp).unwrap());
+    let mut n = 0u64;
+    let mut refused = 0u64;
+    for line in f.lines() {
+        let line = line.unwrap();
+        if !line.starts_with('{') {
+            continue;
+        }
+        let p: serde_json::Value = match serde_json::from_str(&line) {
+            Ok(v) => v,
+            Err(_) => continue,
+        };
+        for it in p["items"].as_array().unwrap() {
+            let op = it["op"].as_str().unwrap_or("");
+            let m = it["m"].as_str().unwrap_or("");
+            let known = match op {
+                "pad" | "bind" => true,
+                "ins" => ["jmp", "jmp_near", "jcc", "jcc_near", "movq_rl", "movsd_rl"].contains(&m),
+                _ => false,
+            };
+            if !known {
+                eprintln!("unknown item {} {}", op, m);
+                std::process::exit(2);
+            }
+        }
+        let id = p["id"].clone();
+        match replay_program(&p) {
+            Some(b) => writeln!(out, "{{\"id\":{},\"bytes\":{:?}}}", id, b).unwrap(),
+            None => {
+                refused += 1;
+                writeln!(out, "{{\"id\":{},\"refused\":true}}", id).unwrap()
+            }
+        }
+        n += 1;
+    }
+    out.flush().unwrap();
+    println!("{{\"kind\":\"summary\",\"programs\":{},\"refused\":{}}}", n, refused);
+}
+
+fn main() {
+    std::panic::set_hook(Box::new(|_| {}));
+    let args: Vec<String> = std::env::args().collect();
+    match args.get(1).map(|s| s.as_str()) {
+        Some("methods") => {
+            for m in table() {
+                println!("{}", m.name);
+            }
+        }
+        Some("record") => {
+            let seed: u64 = args[3].parse().unwrap();
+            record(&args[2], seed, args.get(4).map(|s| s == "thorough").unwrap_or(false));
+        }
+        Some("labels") => labels(&args[2], &args[3]),
+        _ => {
+            eprintln!("usage: vx64 methods | record <out> <seed> <quick|thorough> | labels <in> <out>");
+            std::process::exit(2);
+        }
+    }
+}
